@@ -663,15 +663,16 @@ Proof.
       apply andb_prop in H1; apply andb_prop in H2; destruct H1, H2; auto.
 Qed.
 
-Theorem wire_roundtrip_all E C : b64_law E C ->
-  forall d, num_limits_ok d = true -> scaled_grid_small d = true -> forall v, valid d v = true -> rt E C d v.
-Proof. intros HB d H1 H2. apply wire_roundtrip; [exact HB|apply guards_num_rt; assumption]. Qed.
+Theorem wire_roundtrip_all E C :
+  forall d, num_limits_ok d = true -> scaled_grid_small d = true ->
+  forall v, valid d v = true -> b64_ok E C d v = true -> rt E C d v.
+Proof. intros d H1 H2. apply wire_roundtrip. apply guards_num_rt; assumption. Qed.
 
 Theorem setparam_roundtrip_all C E d t w :
-  b64_law E C -> num_limits_ok d = true -> scaled_grid_small d = true ->
-  from_string C d t = Ok w -> valid d w = true ->
+  num_limits_ok d = true -> scaled_grid_small d = true ->
+  from_string C d t = Ok w -> valid d w = true -> b64_ok E C d w = true ->
   exists v', set_from_string C E d d t = Ok v' /\ py_eq w v'.
-Proof. intros HB H1 H2. apply setparam_roundtrip; [exact HB|apply guards_num_rt; assumption]. Qed.
+Proof. intros H1 H2. apply setparam_roundtrip. apply guards_num_rt; assumption. Qed.
 
 (* simpler guards on trees: every scaled leaf has indices up to 2^50, or limits on the grid and indices up to 2^51;
    they imply scaled_grid_small *)
